@@ -1,65 +1,122 @@
-(* C10 - Renaming apart changes only variables, consistently. *)
-From Suiron Require Import Model.Term Model.Subst Model.Rename Spec.SpecLists Proofs.RenameProofs.
+(* C10 - Renaming apart, DURING A SEARCH: every clause fetched while a query is being solved is
+   renamed to variable ids above every id in use.
+
+   `below n t` / `below_goal n g`: every variable id occurring in the term / goal is <= n.
+   `below_ss n ss`: every term bound in the substitution set is `below n`, and the set has at most
+   n + 1 slots (every slot index is <= n).  `below_args` is `below` for the argument list of a
+   built-in predicate.  (Definitions in Proofs/FreshSearch.v; `rvars`, `tvars` in
+   Proofs/RenameProofs.v.)  The invariant of a search is: goal and substitution set are below the
+   variable-id counter of the world (`next_id w`). *)
+From Suiron Require Import Model.Term Model.Subst Model.Unify Model.Builtins Model.Rename Model.Solve
+  Spec.SpecCut Proofs.RenameProofs Proofs.RefineCut Proofs.SolveQuiet Proofs.FreshSearch.
 Open Scope N_scope.
 
-(* `erase x` forgets variable ids and nothing else; `rvars r` lists the variable occurrences
-   (id, name) of a rule; `consistent occ`: same name <-> same id; `fresh_between lo hi occ`:
-   every id is > lo and <= hi.  (Definitions in Proofs/RenameProofs.v.) *)
+(* THE PROPERTY, locally: the clause that the search fetches at counter `next_id w` has all its
+   variable ids strictly above the counter and at most the new counter; so, the goal term t and the
+   substitution set s being below the counter, no id of the clause occurs in t, is a slot of s, is
+   bound in s, or occurs in a term bound in s.  The clause itself is below the new counter. *)
+Theorem C10_clause_fetched_is_apart : forall kb key idx w r ctr t s,
+  get_rule kb key idx (next_id w) = Ok (r, ctr) ->
+  below (next_id w) t -> below_ss (next_id w) s ->
+  next_id w <= ctr /\
+  (forall id name, In (id, name) (rvars r) ->
+     next_id w < id <= ctr /\
+     ~ In id (map fst (tvars t)) /\
+     N.of_nat (length s) <= id /\ ss_get s id = None /\
+     (forall i u, ss_get s i = Some u -> ~ In id (map fst (tvars u)))) /\
+  below ctr (r_head r) /\ below_goal ctr (r_body r).
+Proof. exact clause_fetched_is_apart. Qed.
 
-(* Every clause fetch (get_rule: clone, rename with an empty map, advance the counter):
-   nothing but ids changes - atoms, numbers, list nodes including [], counts and tail
-   markers, goal structure are the stored rule's -, occurrences of one name get one id,
-   different names different ids, and every id is fresh: above the counter before the
-   fetch, at most the counter after it. *)
-Theorem C10_get_rule : forall kb pred i ctr r' ctr',
-  get_rule kb pred i ctr = Ok (r', ctr') ->
-  exists r rules, kb_get kb pred = Some rules /\ nth_error rules (N.to_nat i) = Some r /\
-    erase_rule r' = erase_rule r /\ ctr <= ctr' /\
-    consistent (rvars r') /\ fresh_between ctr ctr' (rvars r').
-Proof. exact get_rule_spec. Qed.
+(* unification keeps the invariant: it binds only variables that occur in its operands or in the
+   set, to terms that occur there (or to the constant value of a built-in function) *)
+Theorem C10_unify_below : forall n fuel a b ss ss',
+  below n a -> below n b -> below_ss n ss -> unify fuel a b ss = Ok (Some ss') -> below_ss n ss'.
+Proof. exact unify_below. Qed.
 
-(* Queries built by make_query: the same, with ids 1 .. counter. *)
-Theorem C10_make_query : forall ts g ctr,
-  make_query ts = Ok (g, ctr) ->
-  exists ts', g = GCall (TComplex ts') /\ map erase ts' = map erase ts /\
-    consistent (flat_map tvars ts') /\ fresh_between 0 ctr (flat_map tvars ts').
-Proof. exact make_query_spec. Qed.
+(* so does every built-in predicate (all sixteen of `run_bip`) *)
+Theorem C10_run_bip_below : forall n fuel fn ts s r s',
+  below_args n ts -> below_ss n s -> run_bip fuel fn ts s = Ok r -> br_sol r = Some s' -> below_ss n s'.
+Proof. exact run_bip_below. Qed.
 
-(* The building blocks, for any renaming state (used repeatedly / with a shared map): *)
-Theorem C10_term : forall t st t' st', rename_term t st = (t', st') -> good_term t st t' st'.
-Proof. exact rename_term_good. Qed.
-Theorem C10_goal : forall g st g' st', rename_goal g st = Ok (g', st') -> good_goal g st g' st'.
-Proof. exact rename_goal_good. Qed.
-Theorem C10_rule : forall r st r' st', rename_rule r st = Ok (r', st') -> good_rule r st r' st'.
-Proof. exact rename_rule_good. Qed.
+(* the reference search (Spec/SpecCut.v), any goal, any knowledge base, any continuation that keeps
+   the invariant: the counter never goes below its initial value (a head that does not unify restores
+   it to the value before the fetch, as the engine does) and every answer is below the final counter *)
+Theorem C10_csolve_fresh : forall kb bf fuel g s w k answers w' sg,
+  below_goal (next_id w) g -> below_ss (next_id w) s ->
+  (forall s1 w1 c a wE sg1, below_ss (next_id w1) s1 -> next_id w <= next_id w1 ->
+     k s1 w1 c = Ok (a, wE, sg1) -> next_id w1 <= next_id wE /\ Forall (below_ss (next_id wE)) a) ->
+  csolve kb bf fuel g s w k = Ok (answers, w', sg) ->
+  next_id w <= next_id w' /\ Forall (below_ss (next_id w')) answers.
+Proof. exact csolve_fresh. Qed.
 
-(* List shapes survive: a renamed well-formed list is a well-formed list with the renamed
-   elements, the same length and the same tail-ness (in particular [] stays []). *)
-Theorem C10_list_shape : forall l st l' st' xs tl,
-  rename_term l st = (l', st') -> elems l = Some (xs, tl) ->
-  exists xs' tl', elems l' = Some (xs', tl') /\ map erase xs' = map erase xs /\
-                  option_map erase tl' = option_map erase tl.
-Proof. exact rename_list_shape. Qed.
+Theorem C10_canswers_fresh : forall kb bf fuel q w answers w',
+  below (next_id w) q -> canswers kb bf fuel q w = Ok (answers, w') ->
+  Forall (below_ss (next_id w')) answers /\ next_id w <= next_id w'.
+Proof. exact canswers_fresh. Qed.
 
-(* non-vacuity: g($X) :- $X = [], p($X, $Y, [$Y | $X]).  fetched at counter 7 *)
-Example C10_witness :
-  let X := TVar 0 [36; 88] in let Y := TVar 0 [36; 89] in
-  let r := mkRule (TComplex [TAtom [103]; X])
-                  (GOp OAnd [GBip [117] (Some [X; empty_list]);
-                             GCall (TComplex [TAtom [112]; X; Y; TList Y (TList X empty_list 1 true) 2 false])]) in
-  exists r', get_rule [([103; 47; 49], [r])] [103; 47; 49] 0 7 = Ok (r', 9) /\
-             rvars r' = [(8, [36; 88]); (8, [36; 88]); (8, [36; 88]); (9, [36; 89]); (9, [36; 89]); (8, [36; 88])].
-Proof. eexists. vm_compute. split; reflexivity. Qed.
+(* a query built by the API satisfies the hypothesis *)
+Theorem C10_api_query_below : forall ts w g w',
+  api_make_query ts w = Ok (g, w') -> exists q, g = GCall q /\ below (next_id w') q.
+Proof. exact api_make_query_below. Qed.
 
-Check C10_get_rule : forall kb pred i ctr r' ctr',
-  get_rule kb pred i ctr = Ok (r', ctr') ->
-  exists r rules, kb_get kb pred = Some rules /\ nth_error rules (N.to_nat i) = Some r /\
-    erase_rule r' = erase_rule r /\ ctr <= ctr' /\
-    consistent (rvars r') /\ fresh_between ctr ctr' (rvars r').
+(* THE ENGINE MODEL, through the refinement theorem C01_refines (refines_cut): whenever the reference
+   search and the engine's request loop (asking the query's node until it reports no answer) both
+   finish, every substitution set the engine returns is below the engine's final counter *)
+Theorem C10_engine_answers_fresh : forall kb bf q w fs R nd w1 m F answers wE,
+  below (next_id w) q ->
+  canswers kb bf fs q w = Ok R ->
+  make_base_node kb (GCall q) w = Ok (nd, w1) ->
+  ask_all kb bf m F nd w1 = Ok (answers, wE) ->
+  Forall (below_ss (next_id wE)) answers /\ next_id w <= next_id wE.
+Proof. exact engine_answers_fresh. Qed.
 
-Print Assumptions C10_get_rule.
-Print Assumptions C10_make_query.
-Print Assumptions C10_term.
-Print Assumptions C10_goal.
-Print Assumptions C10_rule.
-Print Assumptions C10_list_shape.
+(* the same for requests made one after the other with whatever fuel, also beyond exhaustion
+   (C01_requests_are_the_reference_answers): every answer returned is a reference answer, below the
+   reference's final counter, which is the engine's from exhaustion on *)
+Theorem C10_engine_requests_fresh : forall kb bf q w fs a wR nd w1 rs nd' w',
+  below (next_id w) q ->
+  canswers kb bf fs q w = Ok (a, wR) ->
+  make_base_node kb (GCall q) w = Ok (nd, w1) ->
+  Asks kb bf nd w1 rs nd' w' ->
+  (forall s, In (Some s) rs -> In s a /\ below_ss (next_id wR) s) /\
+  next_id w <= next_id wR /\
+  ((length a < length rs)%nat -> w' = wR).
+Proof. exact engine_requests_fresh. Qed.
+
+(* non-vacuity.   p(a).  p($X) :- q($X).  q([$X]).  q(c).   ?- p($Y).   with $Y = $_1, counter 1.
+   Three answers; the second binds $_1 to [$_3], $_3 being the variable of the clause q([$X])
+   fetched at counter 2; the final counter is 3.  The engine's request loop returns the same. *)
+Example C10_fresh_witness :
+  let X := TVar 0 [36; 88] in
+  let kb : kbase :=
+    [([112; 47; 49], [mkRule (TComplex [TAtom [112]; TAtom [97]]) GNil;
+                      mkRule (TComplex [TAtom [112]; X]) (GCall (TComplex [TAtom [113]; X]))]);
+     ([113; 47; 49], [mkRule (TComplex [TAtom [113]; TList X empty_list 1 false]) GNil;
+                      mkRule (TComplex [TAtom [113]; TAtom [99]]) GNil])] in
+  let q := TComplex [TAtom [112]; TVar 1 [36; 89]] in
+  let w := mkWorld 1 false None [] in
+  below (next_id w) q /\
+  exists a1 a2 a3 w' nd w1,
+    canswers kb 20 20 q w = Ok ([a1; a2; a3], w') /\ next_id w' = 3 /\
+    ss_get a2 1 = Some (TList (TVar 3 [36; 88]) empty_list 1 false) /\
+    make_base_node kb (GCall q) w = Ok (nd, w1) /\
+    ask_all kb 20 10 20 nd w1 = Ok ([a1; a2; a3], w').
+Proof.
+  cbn zeta. split.
+  - intros id name [E|[]]. inversion E; subst. cbn. discriminate.
+  - do 6 eexists. refine (conj _ (conj _ (conj _ (conj _ _)))).
+    + vm_compute. reflexivity.
+    + reflexivity.
+    + reflexivity.
+    + vm_compute. reflexivity.
+    + vm_compute. reflexivity.
+Qed.
+
+Print Assumptions C10_clause_fetched_is_apart.
+Print Assumptions C10_unify_below.
+Print Assumptions C10_run_bip_below.
+Print Assumptions C10_csolve_fresh.
+Print Assumptions C10_canswers_fresh.
+Print Assumptions C10_api_query_below.
+Print Assumptions C10_engine_answers_fresh.
+Print Assumptions C10_engine_requests_fresh.
